@@ -119,7 +119,12 @@ def _open_loop_job(k):
         s["ny"] = 2 * s["ny"] - 1
     comp = k % 3 == 2  # compressible coupled group (Prandtl-Glauert pipeline inside the loop)
     beta = 0.0 if s["sym"] else float(rng.uniform(2, 6)) * (1 if k % 4 < 2 else -1)  # sideslip on the full-span models
-    m = B.ASModel([s], rng=rng, compressible=comp, flow=dict(alpha=float(rng.uniform(3, 7)), beta=beta, Mach_number=0.6 if comp else 0.3, v=float(rng.uniform(150, 240)), load_factor=float(rng.choice([1.0, 2.5]))))
+    surfs = [s]
+    if k % 3 == 1:
+        # a second flexible surface of the SAME mesh shape but another spar location and section: whatever is built per surface
+        # inside the point must be built from that surface's own dictionary
+        surfs.append(dict(s, name="tail", shape="tapered", span=9.0, chord=1.6, off=(14.0, 0.0, 1.2), fem="tube", fem_origin=0.6, relief=False))
+    m = B.ASModel(surfs, rng=rng, compressible=comp, flow=dict(alpha=float(rng.uniform(3, 7)), beta=beta, Mach_number=0.6 if comp else 0.3, v=float(rng.uniform(150, 240)), load_factor=float(rng.choice([1.0, 2.5]))))
     m.run()
     p = m.prob
     c = "AS_point_0.coupled."
@@ -129,6 +134,18 @@ def _open_loop_job(k):
     mesh = np.array(p.get_val("wing.mesh"))
     nodes = np.array(p.get_val("wing.nodes"))
     bad = []
+    # every surface's nodal loads are those its OWN load transfer (its own spar location, section type, mesh) makes of the
+    # converged sectional forces on the converged deformed mesh
+    from ..onecomp import run_comp
+
+    for dd in m.dicts:
+        n = dd["name"]
+        lt = run_comp(LoadTransfer(surface=dd), {"def_mesh": np.array(p.get_val(c + n + ".def_mesh")), "sec_forces": np.array(p.get_val(c + "aero_states." + n + "_sec_forces"))}, ["loads"])["loads"]
+        lc = np.array(p.get_val(c + n + "_loads.loads"))
+        if not (float(np.max(np.abs(lt - lc))) <= 1e-9 * float(np.max(np.abs(lc)))):
+            bad.append(("openloop:load_transfer_of_surface:%s" % ("first" if n == m.names[0] else "later"), {"err": float(np.max(np.abs(lt - lc)) / np.max(np.abs(lc)))}))
+    if len(m.dicts) > 1:
+        return {"k": k, "bad": bad, "case": dict({kk: s[kk] for kk in ("nx", "ny", "sym", "shape", "fem", "relief")}, compressible=comp, beta=beta, surfaces=2)}
     # aero leg: disp -> deformed mesh -> flow -> loads, with stand-alone instances of the code's own groups
     prob = om.Problem(reports=False)
     ivc = om.IndepVarComp()
@@ -154,7 +171,7 @@ def _open_loop_job(k):
     prob.run_model()
     l2 = np.array(prob.get_val("lt.loads"))
     fs = float(np.max(np.abs(loads[:, :3])))
-    if float(np.max(np.abs(l2[:, :3] - loads[:, :3]))) > 1e-8 * fs or float(np.max(np.abs(l2[:, 3:] - loads[:, 3:]))) > 1e-8 * max(float(np.max(np.abs(loads[:, 3:]))), fs):
+    if not (float(np.max(np.abs(l2[:, :3] - loads[:, :3]))) <= 1e-8 * fs) or not (float(np.max(np.abs(l2[:, 3:] - loads[:, 3:]))) <= 1e-8 * max(float(np.max(np.abs(loads[:, 3:]))), fs)):
         bad.append(("openloop:aero_leg", {"err_f": float(np.max(np.abs(l2[:, :3] - loads[:, :3]))) / fs}))
     # structural leg: loads -> displacements
     p2 = om.Problem(reports=False)
@@ -170,7 +187,7 @@ def _open_loop_job(k):
     p2.setup()
     p2.run_model()
     d2 = np.array(p2.get_val("disp"))
-    if float(np.max(np.abs(d2[:, :3] - disp[:, :3]))) > 1e-8 * float(np.max(np.abs(disp[:, :3]))) or float(np.max(np.abs(d2[:, 3:] - disp[:, 3:]))) > 1e-8 * float(np.max(np.abs(disp[:, 3:]))):
+    if not (float(np.max(np.abs(d2[:, :3] - disp[:, :3]))) <= 1e-8 * float(np.max(np.abs(disp[:, :3])))) or not (float(np.max(np.abs(d2[:, 3:] - disp[:, 3:]))) <= 1e-8 * float(np.max(np.abs(disp[:, 3:])))):
         bad.append(("openloop:struct_leg", {}))
     return {"k": k, "bad": bad, "case": dict({kk: s[kk] for kk in ("nx", "ny", "sym", "shape", "fem", "relief")}, compressible=comp, beta=beta)}
 
@@ -194,13 +211,13 @@ def _cmp(a, b, tol):
         if kk.endswith("disp"):
             for sl in (slice(0, 3), slice(3, 6)):
                 e = float(np.max(np.abs(a[kk][:, sl] - b[kk][:, sl]))) / max(float(np.max(np.abs(b[kk][:, sl]))), 1e-300)
-                if e > tol:
+                if not (e <= tol):
                     bad.append((kk, e))
         else:
             if kk.endswith("CM") or kk.endswith("cg"):
                 sc = max(sc, 1e-3)
             e = float(np.max(np.abs(a[kk] - b[kk]))) / sc
-            if e > tol:
+            if not (e <= tol):
                 bad.append((kk, e))
     return bad
 
@@ -304,7 +321,7 @@ def _multipoint_job(k):
     for kk in p0:
         if not np.array_equal(p0[kk], p0b[kk]):
             e = float(np.max(np.abs(p0[kk] - p0b[kk]))) / max(float(np.max(np.abs(p0[kk]))), 1e-300)
-            if e > 1e-13:
+            if not (e <= 1e-13):
                 bad.append(("multipoint:point0_changed", {"var": kk, "err": e}))
     # point 0 equals the single-point model at the same conditions
     single = B.ASModel([s], flow={kk: v[0] for kk, v in flow.items()}, rng=np.random.default_rng(5))
